@@ -3,12 +3,12 @@ package main
 func init() {
 	register(Harness{
 		Prop: "C11", Pkg: "storage/file", Func: "VerifC11Crash", InitPkgs: []string{"storage"},
-		Quick:      append(grid(rng(0, 3), []int64{1, 2}, []int64{0}), [][]int64{{0, 1, 1}, {0, 2, 2}}...),
-		Thorough:   append(grid(rng(0, 3), []int64{0, 1, 2, 3}, []int64{0}), [][]int64{{0, 1, 1}, {0, 2, 2}, {0, 2, 1}}...),
+		Quick:      append(grid(rng(0, 3), []int64{1, 2}, []int64{0}, []int64{0}), [][]int64{{0, 1, 1, 0}, {0, 2, 2, 0}, {2, 1, 0, 1}, {3, 1, 0, 2}, {0, 0, 0, 2}}...),
+		Thorough:   append(grid(rng(0, 3), []int64{0, 1, 2, 3}, []int64{0}, []int64{0, 1, 2}), [][]int64{{0, 1, 1, 0}, {0, 2, 2, 0}, {0, 2, 1, 0}, {0, 1, 1, 2}}...),
 		Unwind:     40,
 		LoopBounds: fileLoopBounds,
 		Desc:       "one mutating file-store operation (deliver / mark seen / remove / purge) on a mailbox holding `pre` messages is cut at a symbolic crash point (the crash hooks before every file-system mutation and after every write) with the write, recursive removal or directory creation in flight partly done (symbolic prefix / subset / depth); a fresh Store on the directory must list and visit every mailbox without error, show the other mailbox intact, show the operation all-or-nothing with complete content, and accept new mail",
-		Bounds:     "params (operation, messages already in the mailbox, mailbox cap); crash_at in [1,12] (more hook calls than any of these operations makes); torn index: 0..4 complete values + optional half value; torn raw file: 0..2 bytes; removal subset over <= 4 directory entries; mkdir depth 0..2; one operation interrupted per run, preceded by a concrete prelude",
+		Bounds:     "params (operation, messages already in the mailbox, mailbox cap, name set: the other mailbox is unrelated / shares the level-1 directory and lock / shares level-1 and level-2 directories); crash_at in [1,12] (more hook calls than any of these operations makes); torn index: 0..4 complete values + optional half value; torn raw file: 0..2 bytes; removal subset over <= 4 directory entries; mkdir depth 0..2; one operation interrupted per run, preceded by a concrete prelude",
 		Assumes:    []string{"crash = panic raised inside the crash hook, deferred functions run (a deferred file-system mutation would be flagged by the model: VfsFreeze)", "file-system model of harness/zzvrf/vfs.go: create/truncate, write, rename (atomic), remove, mkdir are atomic steps; data written before a crash point is durable (no fsync modelling, no reordering of writes by the kernel)", "gob value boundaries as in the model; natively TearGob cuts the real stream at the same value boundary"},
 	})
 }
